@@ -120,3 +120,166 @@ package dnsserver
 //@   ensures only-when-requested: old(noOPT(req)) || old(noOPT(resp)) ||
 //@             (forall i int :: old(lastOPT(req, i)) ==> !old(hasKeepAlive(optAt(req, i)))) ==>
 //@             (forall o *dns.OPT :: o.Option == old(o.Option))
+
+// ---------------------------------------------------------------------------
+// C01: one matching answer per accepted query, documented treatment of the rest.
+//
+// Ghost effect state: what has been written to each response writer and what
+// each handler has been asked to serve.
+
+//@ ghost writes map[ResponseWriter]int
+//@ ghost wroteReq map[ResponseWriter]*dns.Msg
+//@ ghost wroteResp map[ResponseWriter]*dns.Msg
+//@ ghost wroteId map[ResponseWriter]int
+//@ ghost wroteRcode map[ResponseWriter]int
+//@ ghost wroteNQ map[ResponseWriter]int
+//@ ghost wroteQ map[ResponseWriter]dns.Question
+//@ ghost served map[Handler]int
+//@ ghost servedReq map[Handler]*dns.Msg
+//@ ghost servedRW map[Handler]ResponseWriter
+//@ ghost servedErr map[Handler]bool
+
+// Every response writer records one write per call, with the identity of the
+// response at the moment it was handed over.  A writer may rewrite the
+// response message (normalisation) and its own buffers, nothing else.
+//
+//@ interface ResponseWriter method WriteMsg
+//@   requires resp != nil
+//@   modifies dns.Msg.*, dns.OPT.*, allelems(dns.RR), allelems(dns.EDNS0), allelems(byte), dns.EDNS0_PADDING.Padding,
+//@            dns.EDNS0_TCP_KEEPALIVE.Timeout, truncSize,
+//@            writes[this], wroteReq[this], wroteResp[this], wroteId[this], wroteRcode[this], wroteNQ[this], wroteQ[this]
+//@   ensures writes[this] == old(writes[this]) + 1 && wroteReq[this] == req && wroteResp[this] == resp
+//@   ensures wroteId[this] == old(resp.Id) && wroteRcode[this] == old(resp.Rcode) && wroteNQ[this] == old(len(resp.Question))
+//@   ensures old(len(resp.Question)) > 0 ==> wroteQ[this] == old(resp.Question[0])
+//@   ensures resp.Id == old(resp.Id) && resp.Rcode == old(resp.Rcode) && resp.Response == old(resp.Response)
+
+// A handler may do anything to the heap; it is served once per call, writes
+// monotonically, and reaches a recorder only through its WriteMsg (handler
+// discipline, see DESIGN.md C01/H1).
+//
+//@ interface Handler method ServeDNS
+//@   params this, ctx, rw, req
+//@   modifies heap, served[this], servedReq[this], servedRW[this], servedErr[this],
+//@            writes, wroteReq, wroteResp, wroteId, wroteRcode, wroteNQ, wroteQ
+//@   ensures served[this] == old(served[this]) + 1 && servedReq[this] == req && servedRW[this] == rw
+//@   ensures servedErr[this] == (result != nil)
+//@   ensures req.Id == old(req.Id) && req.Opcode == old(req.Opcode) && len(req.Question) == old(len(req.Question)) &&
+//@           (old(len(req.Question)) > 0 ==> req.Question[0] == old(req.Question[0]))
+//@   ensures forall s *ServerBase :: s.metrics == old(s.metrics) && s.handler == old(s.handler) && s.disposer == old(s.disposer)
+//@   ensures forall w ResponseWriter :: writes[w] >= old(writes[w])
+//@   ensures isptr(rw, RecorderResponseWriter) ==> asptr(rw, RecorderResponseWriter).rw == old(asptr(rw, RecorderResponseWriter).rw) &&
+//@      ((asptr(rw, RecorderResponseWriter).Resp == old(asptr(rw, RecorderResponseWriter).Resp) &&
+//@        writes[old(asptr(rw, RecorderResponseWriter).rw)] == old(writes[asptr(rw, RecorderResponseWriter).rw])) ||
+//@       (asptr(rw, RecorderResponseWriter).Resp == wroteResp[old(asptr(rw, RecorderResponseWriter).rw)] &&
+//@        asptr(rw, RecorderResponseWriter).Resp != nil &&
+//@        writes[old(asptr(rw, RecorderResponseWriter).rw)] > old(writes[asptr(rw, RecorderResponseWriter).rw])))
+
+//@ interface MetricsListener method OnInvalidMsg
+//@   modifies nothing
+//@ interface MetricsListener method OnRequest
+//@   modifies nothing
+//@ interface MetricsListener method OnError
+//@   modifies nothing
+//@ interface MetricsListener method OnPanic
+//@   modifies nothing
+// disposed counts how often a message has been handed back to the pools.
+//@ ghost disposed map[*dns.Msg]int
+//@ interface Disposer method Dispose
+//@   modifies disposed[resp]
+//@   ensures disposed[resp] == old(disposed[resp]) + 1
+
+// acceptMsg: the documented decision table, total on every message value.
+//
+//@ pred acceptable(m *dns.Msg) = !m.Response && (m.Opcode == 0 || m.Opcode == 4) &&
+//@        len(m.Question) == 1 && len(m.Answer) <= 1 && len(m.Ns) <= 1
+//@ func (*ServerBase).acceptMsg
+//@   property C01
+//@   requires m != nil
+//@   ensures ignore-responses: m.Response ==> action == dns.MsgIgnore
+//@   ensures notimp: !m.Response && m.Opcode != 0 && m.Opcode != 4 ==> action == dns.MsgRejectNotImplemented
+//@   ensures formerr: !m.Response && (m.Opcode == 0 || m.Opcode == 4) &&
+//@             (len(m.Question) != 1 || len(m.Answer) > 1 || len(m.Ns) > 1) ==> action == dns.MsgReject
+//@   ensures accept: acceptable(m) <==> action == dns.MsgAccept
+
+//@ func genErrorResponse
+//@   property C01
+//@   requires req != nil
+//@   ensures m != nil && fresh(m) && m.Id == req.Id && m.Response && m.Rcode == code && m.Opcode == req.Opcode
+//@   ensures len(req.Question) > 0 ==> len(m.Question) == 1 && m.Question[0] == req.Question[0]
+//@   ensures len(req.Question) == 0 ==> len(m.Question) == 0
+
+//@ func (*RecorderResponseWriter).WriteMsg
+//@   property C01
+//@   requires r.rw != nil && resp != nil
+//@   modifies r.Resp, dns.Msg.*, dns.OPT.*, allelems(dns.RR), allelems(dns.EDNS0), allelems(byte), dns.EDNS0_PADDING.Padding,
+//@            dns.EDNS0_TCP_KEEPALIVE.Timeout, truncSize,
+//@            writes[r.rw], wroteReq[r.rw], wroteResp[r.rw], wroteId[r.rw], wroteRcode[r.rw], wroteNQ[r.rw], wroteQ[r.rw]
+//@   ensures recorded: r.Resp == resp && r.rw == old(r.rw)
+//@   ensures forwarded-once: writes[r.rw] == old(writes[r.rw]) + 1 && wroteResp[r.rw] == resp && wroteReq[r.rw] == req
+//@   ensures wroteId[r.rw] == old(resp.Id) && wroteRcode[r.rw] == old(resp.Rcode) && wroteNQ[r.rw] == old(len(resp.Question))
+//@   ensures old(len(resp.Question)) > 0 ==> wroteQ[r.rw] == old(resp.Question[0])
+
+// isNonCriticalNetError only inspects the error (errors.Is / errors.As).
+//@ func isNonCriticalNetError
+//@   modifies nothing
+
+//@ func addEDE
+//@   requires req != nil && resp != nil
+//@   modifies dns.Msg.Extra, dns.OPT.*, allelems(dns.RR), allelems(dns.EDNS0)
+//@   nosafety all
+
+//@ func (*ServerBase).serveDNSMsgInternal
+//@   property C01
+//@   requires req != nil && rw != nil && rw.rw != nil && s.handler != nil && s.metrics != nil && rw.Resp == nil
+//@   modifies heap, served, servedReq, servedRW, servedErr, writes, wroteReq, wroteResp, wroteId, wroteRcode, wroteNQ, wroteQ, truncSize
+//@   ensures ignored-silently: old(req.Response) ==> (forall w ResponseWriter :: writes[w] == old(writes[w])) &&
+//@             (forall h Handler :: served[h] == old(served[h]))
+//@   ensures notimp-answer: !old(req.Response) && old(req.Opcode) != 0 && old(req.Opcode) != 4 ==>
+//@             writes[old(rw.rw)] == old(writes[rw.rw]) + 1 && wroteId[old(rw.rw)] == old(req.Id) && wroteRcode[old(rw.rw)] == 4 &&
+//@             (forall h Handler :: served[h] == old(served[h]))
+//@   ensures formerr-answer: !old(req.Response) && (old(req.Opcode) == 0 || old(req.Opcode) == 4) && !old(acceptable(req)) ==>
+//@             writes[old(rw.rw)] == old(writes[rw.rw]) + 1 && wroteId[old(rw.rw)] == old(req.Id) && wroteRcode[old(rw.rw)] == 1 &&
+//@             (forall h Handler :: served[h] == old(served[h]))
+//@   ensures error-answers-echo-question: !old(req.Response) && !old(acceptable(req)) && old(len(req.Question)) > 0 ==>
+//@             wroteNQ[old(rw.rw)] == 1 && wroteQ[old(rw.rw)] == old(req.Question[0])
+//@   ensures accepted-served-once: old(acceptable(req)) ==> served[old(s.handler)] == old(served[s.handler]) + 1 &&
+//@             servedReq[old(s.handler)] == req && servedRW[old(s.handler)] == asiface(rw)
+//@   ensures server-unchanged: s.metrics == old(s.metrics) && s.handler == old(s.handler) && s.disposer == old(s.disposer)
+//@   ensures recorder-coherent: rw.rw == old(rw.rw) && ((rw.Resp == nil && writes[old(rw.rw)] == old(writes[rw.rw])) ||
+//@             (rw.Resp != nil && rw.Resp == wroteResp[old(rw.rw)] && writes[old(rw.rw)] > old(writes[rw.rw])))
+//@   ensures servfail-on-handler-error: old(acceptable(req)) && servedErr[old(s.handler)] ==>
+//@             wroteRcode[old(rw.rw)] == 2 && wroteId[old(rw.rw)] == old(req.Id) && wroteNQ[old(rw.rw)] == 1 &&
+//@             wroteQ[old(rw.rw)] == old(req.Question[0]) && writes[old(rw.rw)] > old(writes[rw.rw])
+
+// dispose hands a response back to the pools only for the two writers whose
+// WriteMsg has finished with the message when it returns (C07).
+//
+//@ func (*ServerBase).dispose
+//@   property C01 C07
+//@   requires s.disposer != nil
+//@   modifies disposed[resp]
+//@   ensures only-udp-tcp: disposed[resp] != old(disposed[resp]) ==> isptr(rw, tcpResponseWriter) || isptr(rw, udpResponseWriter)
+//@   ensures at-most-once: disposed[resp] <= old(disposed[resp]) + 1
+
+//@ func (*ServerBase).serveDNSMsg
+//@   property C01
+//@   requires req != nil && rw != nil && s.handler != nil && s.metrics != nil && s.disposer != nil
+//@   modifies heap, served, servedReq, servedRW, servedErr, writes, wroteReq, wroteResp, wroteId, wroteRcode, wroteNQ, wroteQ, truncSize, disposed
+//@   ensures written-iff-a-write-happened: written <==> writes[rw] > old(writes[rw])
+//@   ensures ignored-silently: old(req.Response) ==> !written && (forall h Handler :: served[h] == old(served[h]))
+//@   ensures notimp-answer: !old(req.Response) && old(req.Opcode) != 0 && old(req.Opcode) != 4 ==>
+//@             writes[rw] == old(writes[rw]) + 1 && wroteId[rw] == old(req.Id) && wroteRcode[rw] == 4 &&
+//@             (forall h Handler :: served[h] == old(served[h]))
+//@   ensures formerr-answer: !old(req.Response) && (old(req.Opcode) == 0 || old(req.Opcode) == 4) && !old(acceptable(req)) ==>
+//@             writes[rw] == old(writes[rw]) + 1 && wroteId[rw] == old(req.Id) && wroteRcode[rw] == 1 &&
+//@             (forall h Handler :: served[h] == old(served[h]))
+//@   ensures accepted-served-once: old(acceptable(req)) ==> served[old(s.handler)] == old(served[s.handler]) + 1 && servedReq[old(s.handler)] == req
+//@   ensures servfail-on-handler-error: old(acceptable(req)) && servedErr[old(s.handler)] ==>
+//@             written && wroteRcode[rw] == 2 && wroteId[rw] == old(req.Id) && wroteNQ[rw] == 1 && wroteQ[rw] == old(req.Question[0])
+
+// Undecodable bytes: nothing is written, the handler is not reached.
+//@ func (*ServerBase).serveDNS
+//@   property C01
+//@   requires rw != nil && s.handler != nil && s.metrics != nil && s.disposer != nil
+//@   modifies heap, served, servedReq, servedRW, servedErr, writes, wroteReq, wroteResp, wroteId, wroteRcode, wroteNQ, wroteQ, truncSize, disposed
+//@   ensures written-iff-a-write-happened: written <==> writes[rw] > old(writes[rw])
